@@ -30,6 +30,7 @@ class GatewayBase:
         self.pending = []        # reports the gateway still owes, FIFO
         self.present = True      # device plugged in
         self.wfail = False       # next write fails (and the device is gone)
+        self.silent = False      # serial: the gateway stopped talking (mid-frame); it queues no further report
 
     def clear(self):
         self.pending = []
@@ -199,6 +200,8 @@ class LubaGW(GatewayBase):
         value = int.from_bytes(bytes(fb), "big")
         twice = bool(mode & 0x80)
         sim.wire_write(nbits, value, twice)
+        if self.silent:
+            return
         self.txid = (self.txid + 1) & 0xFF
         # "accepted" response, then one "frame sent" event per transmission, then the backward frame
         self.pending.append(Report(_luba(0x33, [self.txid, 0]), "accept"))
@@ -236,6 +239,8 @@ class SciGW(GatewayBase):
         else:
             bits, value = 8, data[1]
         sim.wire_write(bits, value, twice)
+        if self.silent:
+            return
         a = self.answer(bits, value)
         if isinstance(a, int):
             self.pending.append(Report(_sci(0x10, 0, 0, 0), "confirm"))
